@@ -4,8 +4,12 @@ import (
 	"bytes"
 	"crypto/cipher"
 	"crypto/ecdsa"
+	"crypto/elliptic"
+	"crypto/x509"
+	"crypto/x509/pkix"
 	"encoding/hex"
 	"fmt"
+	"math/big"
 	"runtime"
 	"testing"
 	"time"
@@ -57,11 +61,11 @@ func init() {
 }
 
 var c20Kinds = []string{
-	"sm2.sign", "sm2.signsm2", "sm2.verify", "sm2.encrypt", "sm2.decrypt", "sm2.kx", "sm2.ecdh", "sm2.newhash",
+	"sm2.sign", "sm2.signsm2", "sm2.verify", "sm2.encrypt", "sm2.decrypt", "sm2.kx", "sm2.ecdh", "sm2.newhash", "sm2.otherza",
 	"ecdh.pub", "ecdh.ecdh", "ecdh.mqv",
 	"sm9.sign", "sm9.verify", "sm9.wrap", "sm9.unwrap", "sm9.enc", "sm9.dec", "sm9.genuser", "sm9.pub",
 	"sm4.block", "sm4.gcm", "sm4.newgcm", "sm4.cbc", "sm4.ctr", "sm4.ecb",
-	"sm3.sum", "pool.verify", "fresh.sm2", "fresh.sm9", "fresh.ecdh", "fresh.sm9enc", "fresh.sm4", "fresh.x509", "fresh.sm9parse",
+	"sm3.sum", "pool.verify", "pool.clone", "fresh.sm2", "fresh.sm9", "fresh.ecdh", "fresh.sm9enc", "fresh.sm4", "fresh.x509", "fresh.sm9parse",
 }
 
 var c20Group = map[string]string{}
@@ -69,7 +73,7 @@ var c20Group = map[string]string{}
 func init() {
 	for _, k := range c20Kinds {
 		g := k[:3]
-		if k == "pool.verify" {
+		if k == "pool.verify" || k == "pool.clone" {
 			g = "pool"
 		}
 		if k[:5] == "fresh" {
@@ -170,7 +174,9 @@ type c20World struct {
 	seed          []byte
 	sm2Priv       *sm2.PrivateKey
 	sm2Peer       *sm2.PrivateKey
-	sm2Sig        []byte // made with an independent object
+	sm2Other      *sm2.PrivateKey       // the SM2 algorithms over another curve (NIST P-256)
+	twins         []*smx509.Certificate // self-signed certificates that all carry ONE subject: 3 in the root pool, the rest for clones
+	sm2Sig        []byte                // made with an independent object
 	sm2Ct         []byte
 	ecdhPriv      *ecdh.PrivateKey
 	ecdhEph       *ecdh.PrivateKey
@@ -243,6 +249,11 @@ func newC20World(seed []byte, need map[string]bool, withArtefacts *c20World) (*c
 		if w.sm2Peer, err = sm2.NewPrivateKey(scalarFrom(seed, "sm2peer")); err != nil {
 			return nil, err
 		}
+		od := scalarFrom(seed, "sm2other")
+		w.sm2Other = new(sm2.PrivateKey)
+		w.sm2Other.Curve = elliptic.P256()
+		w.sm2Other.D = new(big.Int).SetBytes(od)
+		w.sm2Other.X, w.sm2Other.Y = elliptic.P256().ScalarBaseMult(od)
 		if withArtefacts == nil {
 			// artefacts are produced with an independent object so that the shared one stays unused
 			ind, _ := sm2.NewPrivateKey(scalarFrom(seed, "sm2d"))
@@ -314,6 +325,32 @@ func newC20World(seed []byte, need map[string]bool, withArtefacts *c20World) (*c
 		}
 		if w.leaf, err = smx509.ParseCertificatePEM([]byte(fixtures.LeafPEM)); err != nil {
 			return nil, err
+		}
+		// eleven self-signed certificates with one and the same subject: three join the root pool (its per-subject
+		// index then has spare capacity), the others are added by the tasks to their own clones of the pool
+		if withArtefacts != nil {
+			w.twins = withArtefacts.twins
+		} else {
+			for k := 0; k < 11; k++ {
+				tk, err := sm2.NewPrivateKey(scalarFrom(seed, fmt.Sprintf("twin%d", k)))
+				if err != nil {
+					return nil, err
+				}
+				tmpl := &x509.Certificate{SerialNumber: big.NewInt(int64(7000 + k)), Subject: pkix.Name{Organization: []string{"verif"}, CommonName: "verif twin root"},
+					NotBefore: c20VerifyTime.AddDate(-1, 0, 0), NotAfter: c20VerifyTime.AddDate(1, 0, 0), BasicConstraintsValid: true, IsCA: true, KeyUsage: x509.KeyUsageCertSign}
+				der, err := smx509.CreateCertificate(opReader(seed, -100-k), tmpl, tmpl, &tk.PublicKey, tk)
+				if err != nil {
+					return nil, err
+				}
+				tc, err := smx509.ParseCertificate(der)
+				if err != nil {
+					return nil, err
+				}
+				w.twins = append(w.twins, tc)
+			}
+		}
+		for _, tc := range w.twins[:3] {
+			w.roots.AddCert(tc)
 		}
 	}
 	return w, nil
@@ -397,6 +434,17 @@ func c20Do(w *c20World, kind string, opseed int, msg []byte) (out []byte) {
 		}
 		h.Write(msg)
 		return h.Sum(nil)
+	case "sm2.otherza":
+		// the identity digest ZA over another curve (curve parameters are part of the hash input), next to the SM2 curve
+		z1, err := sm2.CalculateZA(&w.sm2Other.PublicKey, msg)
+		if err != nil {
+			return errb(err)
+		}
+		z2, err := sm2.CalculateZA(&w.sm2Priv.PublicKey, msg)
+		if err != nil {
+			return errb(err)
+		}
+		return append(z1, z2...)
 	case "ecdh.pub":
 		return w.ecdhPriv.PublicKey().Bytes()
 	case "ecdh.ecdh":
@@ -523,6 +571,38 @@ func c20Do(w *c20World, kind string, opseed int, msg []byte) (out []byte) {
 				b.Write(c.SerialNumber.Bytes())
 			}
 			b.WriteByte('|')
+		}
+		return b.Bytes()
+	case "pool.clone":
+		// a private clone of the shared root pool, extended by one more certificate with the subject that three pool
+		// members already carry; the clone must then verify that certificate and still verify the fixture leaf
+		cl := w.roots.Clone()
+		extra := w.twins[3+((opseed%8)+8)%8]
+		cl.AddCert(extra)
+		var b bytes.Buffer
+		chains, err := extra.Verify(smx509.VerifyOptions{Roots: cl, CurrentTime: c20VerifyTime, KeyUsages: []smx509.ExtKeyUsage{smx509.ExtKeyUsageAny}})
+		if err != nil {
+			return errb(err)
+		}
+		for _, ch := range chains {
+			for _, c := range ch {
+				b.Write(c.SerialNumber.Bytes())
+			}
+			b.WriteByte('|')
+		}
+		chains, err = w.leaf.Verify(smx509.VerifyOptions{Roots: cl, Intermediates: w.inters, CurrentTime: c20VerifyTime, KeyUsages: []smx509.ExtKeyUsage{smx509.ExtKeyUsageAny}})
+		if err != nil {
+			return errb(err)
+		}
+		for _, ch := range chains {
+			for _, c := range ch {
+				b.Write(c.SerialNumber.Bytes())
+			}
+			b.WriteByte('|')
+		}
+		// the original pool does not know the extra certificate
+		if _, err := extra.Verify(smx509.VerifyOptions{Roots: w.roots, CurrentTime: c20VerifyTime, KeyUsages: []smx509.ExtKeyUsage{smx509.ExtKeyUsageAny}}); err == nil {
+			b.WriteString("extra-known-to-original")
 		}
 		return b.Bytes()
 	case "fresh.sm2":
